@@ -139,6 +139,11 @@ def handleInts (cmd : String) (xs : List Int) : Option String :=
       | some (groups, []) => some (showBuilt (Ivs.buildOptimized n groups))
       | _ => none
     | none => none
+  | "ivs.addall", _ =>
+    -- `<k> set*k`: temporary ids returned by add_deltas on the de-duplicating builder
+    match pList (pList pPairNI) xs with
+    | some (sets, []) => some (joinNats (Ivs.addAllDedup [] sets).2)
+    | _ => none
   | "ivs.direct", _ =>
     match pNat xs with
     | some (n, r) => match pList (pList pPairNI) r with
